@@ -299,6 +299,102 @@ def _pos_split(idx_e, amap):
     return row, rest
 
 
+
+# ------------------------------------------------------------------------------------------ regime enumeration
+PARTS_FIELDS = ['window', 'width', 'ldiff', 'ldiffr', 'ldiffc', 'ri1', 'ri2', 'ri3', 'overlap_left_ri', 'overlap_right_ri']
+_REGIMES = {}
+
+
+def regimes(pdefs, window_off):
+    """Split the (L1, L2, W) space into cells in which every dtw_wps_parts field is a linear form.
+    -> list of (constraints as FM rows, {P_field: linear term}).  window_off: W == 0 encoding."""
+    key = (id(pdefs), window_off)
+    if key in _REGIMES:
+        return _REGIMES[key]
+    base = [sub(V('L1'), C(1)), sub(V('L2'), C(1))]
+    fields = {}
+    for f in PARTS_FIELDS:
+        t = pdefs[f]
+        if window_off:
+            t = sym.subst(t, {'W': C(0)})
+        fields[f] = t
+    if not window_off:
+        base.append(sub(V('W'), C(1)))
+    out = []
+    sym.BUDGET[0] = 10 ** 9
+
+    def rec(cons, fs, depth):
+        if not sym._feasible(cons):
+            return
+        fs2 = {k: sym._simplify(v, cons) for k, v in fs.items()}
+        nonlin = [k for k in PARTS_FIELDS if fs2[k][0] != 'lin']
+        if not nonlin:
+            out.append((list(cons), {'P_' + k: v for k, v in fs2.items()}))
+            return
+        if depth > 30:
+            raise sym.Unsupported('regime split too deep')
+        sp = sym._pick_split(fs2[nonlin[0]], cons)
+        if sp is None:
+            raise sym.Unsupported('no split for parts field %s' % nonlin[0])
+        p_, q_ = sp
+        d = sub(q_, p_)
+        rec(cons + [sym._ge0(d)], fs2, depth + 1)
+        rec(cons + [sym._ge0(add(scale(d, -1), C(-1)))], fs2, depth + 1)
+    rec([sym._ge0(b) for b in base], fields, 0)
+    _REGIMES[key] = out
+    return out
+
+
+def _eval_parts(pdefs, val):
+    v = dict(val)
+    for f in PARTS_FIELDS:
+        v['P_' + f] = sym.evaluate(pdefs[f], val)
+    return v
+
+
+def decide_equal(pdefs, a, b, guards=(), extra_atoms=('ri',), box=None):
+    """Decide a == b for all L1, L2 >= 1, all W >= 0 (0 = window off) and all integer values of extra_atoms satisfying the
+    guards (terms that must be >= 0), where a, b, guards may mention the P_* atoms of dtw_wps_parts.
+    -> ('equal', n_regimes) | ('differ', witness) | ('unknown', reason)"""
+    from itertools import product
+    box = box or {'L1': range(1, 7), 'L2': range(1, 7), 'W': range(0, 8), 'ri': range(0, 6), 'j': range(0, 6)}
+    names = ['L1', 'L2', 'W'] + list(extra_atoms)
+    for vals in product(*[box[n] for n in names]):
+        val = _eval_parts(pdefs, dict(zip(names, vals)))
+        if any(sym.evaluate(g, val) < 0 for g in guards):
+            continue
+        if sym.evaluate(a, val) != sym.evaluate(b, val):
+            return ('differ', {k: val[k] for k in names}, sym.evaluate(a, val), sym.evaluate(b, val))
+    n = 0
+    try:
+        for off in (False, True):
+            for cons, lin in regimes(pdefs, off):
+                sw = {'W': C(0)} if off else {}
+                a2 = sym.subst(sym.subst(a, lin), sw) if sw else sym.subst(a, lin)
+                b2 = sym.subst(sym.subst(b, lin), sw) if sw else sym.subst(b, lin)
+                cs = list(cons)
+                bad = False
+                for g in guards:
+                    g2 = sym.subst(g, lin)
+                    if sw:
+                        g2 = sym.subst(g2, sw)
+                    if g2[0] != 'lin':
+                        g2 = sym._simplify(g2, cs)
+                    if g2[0] != 'lin':
+                        # non-linear guard: fold it into the compared terms
+                        a2 = sym.ite(('<=', C(0), g2), a2, C(0))
+                        b2 = sym.ite(('<=', C(0), g2), b2, C(0))
+                        continue
+                    cs.append(sym._ge0(g2))
+                sym.BUDGET[0] = sym.PROOF_BUDGET[0]
+                if not sym._prove_equal(a2, b2, cs):
+                    return ('unknown', 'differ on a rationally feasible cell of a regime, no integer witness in the box')
+                n += 1
+    except sym.Unsupported as e:
+        return ('unknown', str(e))
+    return ('equal', n)
+
+
 WRITERS = ['dtw_warping_paths_ndim', 'dtw_warping_paths_ndim_euclidean']
 AFF_WRITERS = ['dtw_warping_paths_affinity_ndim', 'dtw_warping_paths_affinity_ndim_euclidean']
 
@@ -338,39 +434,24 @@ def rule_wps_writers(ctx, m, affinity=False, tier='quick'):
                   '(so cur = (ri + 1) * width, prev = ri * width)', f.line)
         for R in regs:
             _region_rules(ctx, R, amap, pdefs, affinity)
-        # band per region (quick: regions A-D lower/upper limits)
+        # band per region: inside the region's rows the column limits equal the documented band
         for R in regs:
-            dom = REGION_DOM + [sub(V('ri'), expand_parts(R.lo, pdefs)) if False else None]
-            lo_r = expand_parts(R.lo, pdefs)
-            hi_r = expand_parts(R.hi, pdefs)
-            c0 = expand_parts(R.c0, pdefs)
-            hc = expand_parts(R.hi_col, pdefs)
-            for lab, sub_w, cw in (('window>=1', {}, {}), ('window off', {'W': C(0)}, {'W': tmax(V('L1'), V('L2'))})):
-                dom = [sub(V('L1'), C(1)), sub(V('L2'), C(1)), V('ri'), sub(sub(V('L1'), V('ri')), C(1))]
-                if lab == 'window>=1':
-                    dom.append(sub(V('W'), C(1)))
-                g_lo, g_hi = sym.subst(c0, sub_w), sym.subst(hc, sub_w)
-                w_lo, w_hi = sym.subst(kern.canon_lo('ri'), cw), sym.subst(kern.canon_hi('ri'), cw)
-                inr = [sym.subst(lo_r, sub_w), sym.subst(hi_r, sub_w)]
-                # inside the region: lo <= ri < hi  -> compare under ite guards
-                guard_lo = sym.ite(('<=', inr[0], V('ri')), sym.ite(('<', V('ri'), inr[1]), C(1), C(0)), C(0))
-                for nm, g, w in (('lower', g_lo, w_lo), ('upper', g_hi, w_hi)):
-                    a = sym.ite(('==', guard_lo, C(1)), g, C(0))
-                    b = sym.ite(('==', guard_lo, C(1)), w, C(0))
-                    r = sym.equivalent(a, b, dom, box=RBOX)
-                    inst = '%s region %s column %s limit [%s]' % (fname, R.name, nm, lab)
-                    if r[0] == 'equal':
-                        ctx.held('R-BAND', inst, r[1])
-                    elif r[0] == 'differ':
-                        wv = r[1]
-                        ctx.violation('R-BAND', R.file, fname, 'region %s column %s limit' % (R.name, nm),
-                                      'in region %s the %s column limit of row ri is %s; the band of the documented scheme is %s: at %s they give %s vs %s'
-                                      % (R.name, nm, sym.show(R.c0 if nm == 'lower' else R.hi_col), sym.show(w), kern._fmtw(wv), sym.evaluate(a, wv), sym.evaluate(b, wv)),
-                                      R.main.line, facts={'witness': wv})
-                    else:
-                        ctx.undecided('R-BAND', inst, r[1])
-        if tier == 'thorough':
-            _continuity(ctx, fname, regs, pdefs)
+            guards = [sub(V('ri'), R.lo), sub(sub(R.hi, V('ri')), C(1)), sub(sub(V('L1'), V('ri')), C(1))]
+            weff = sym.ite(('==', V('W'), C(0)), tmax(V('L1'), V('L2')), V('W'))
+            for nm, g, w in (('lower', R.c0, sym.subst(kern.canon_lo('ri'), {'W': weff})), ('upper', R.hi_col, sym.subst(kern.canon_hi('ri'), {'W': weff}))):
+                r = decide_equal(pdefs, g, w, guards)
+                inst = '%s region %s column %s limit' % (fname, R.name, nm)
+                if r[0] == 'equal':
+                    ctx.held('R-BAND', inst, 'proved in %d regimes of dtw_wps_parts' % r[1])
+                elif r[0] == 'differ':
+                    wv = r[1]
+                    ctx.violation('R-BAND', R.file, fname, 'region %s column %s limit' % (R.name, nm),
+                                  'in region %s the %s column limit of row ri is %s; the band of the documented scheme is %s: at %s they give %s vs %s'
+                                  % (R.name, nm, sym.show(g), sym.show(kern.canon_lo('ri') if nm == 'lower' else kern.canon_hi('ri')), kern._fmtw(wv), r[2], r[3]),
+                                  R.main.line, facts={'witness': wv})
+                else:
+                    ctx.undecided('R-BAND', inst, r[1])
+        _continuity(ctx, fname, regs, pdefs)
         ctx.sample({'writer': fname, 'regions': [{'name': R.name, 'rows': [sym.show(R.lo), sym.show(R.hi)], 'min_ci': sym.show(R.c0), 'wpsi_0': sym.show(R.w0),
                                                    'delta': sym.show(R.delta), 'steps': {k: fmt(v) for k, v in R.steps.items()}} for R in regs]})
 
@@ -621,37 +702,29 @@ def _prune_region(ctx, R, F):
 
 
 def _continuity(ctx, fname, regs, pdefs):
-    """Thorough: the layout shift assumed by the first row of a region matches the last row of the previous non-empty one."""
-    dom0 = [sub(V('L1'), C(1)), sub(V('L2'), C(1))]
-    box = {'L1': range(1, 7), 'L2': range(1, 7), 'W': range(0, 8)}
-    # pseudo region for the top row: delta = -1, rows [-1, 0)
-    prev = [(None, C(-1), C(0), C(-1))]     # (name, lo, hi, delta term as function of ri)
+    """The layout shift assumed by the first row of a region matches the last row of the previous non-empty region."""
+    prev = [(None, C(-1), C(0), C(-1))]     # pseudo region for the top row: rows [-1, 0), delta = -1
     for R in regs:
-        lo = expand_parts(R.lo, pdefs)
-        hi = expand_parts(R.hi, pdefs)
-        delta = expand_parts(R.delta, pdefs)
+        if getattr(R, 'Delta', None) is None:
+            continue
         for (pn, plo, phi, pdelta) in prev:
-            # condition: previous region non-empty (plo < phi), this one non-empty (lo < hi), nothing in between (phi == lo)
-            d_here = sym.subst(delta, {'ri': lo})
-            d_prev = sym.subst(pdelta, {'ri': sub(lo, C(1))})
-            diff = sub(d_here, d_prev)
-            for lab, sw in (('window>=1', {}), ('window off', {'W': C(0)})):
-                dom = list(dom0) + ([sub(V('W'), C(1))] if lab == 'window>=1' else [])
-                cond_t = sym.ite(('<', sym.subst(plo, sw), sym.subst(phi, sw)), sym.ite(('<', sym.subst(lo, sw), sym.subst(hi, sw)),
-                                 sym.ite(('==', sym.subst(phi, sw), sym.subst(lo, sw)), C(1), C(0)), C(0)), C(0))
-                a = sym.ite(('==', cond_t, C(1)), sym.subst(diff, sw), C(R.Delta))
-                r = sym.equivalent(a, C(R.Delta), dom, box=box)
-                inst = '%s continuity %s -> %s [%s]' % (fname, pn or 'top row', R.name, lab)
-                if r[0] == 'equal':
-                    ctx.held('R-MAP', inst, r[1])
-                elif r[0] == 'differ':
-                    wv = r[1]
-                    ctx.violation('R-MAP', R.file, fname, 'continuity %s -> %s' % (pn or 'top row', R.name),
-                                  'the first row of region %s reads its predecessors assuming the layout shifts by %d per row, but relative to the last row of %s it '
-                                  'shifts by %s (at %s)' % (R.name, R.Delta, pn or 'the top row', sym.evaluate(a, wv), kern._fmtw(wv)), R.loop.line, facts={'witness': wv})
-                else:
-                    ctx.undecided('R-MAP', inst, r[1])
-        prev.append((R.name, lo, hi, delta))
+            # previous region non-empty (plo < phi), this one non-empty (lo < hi), nothing in between (phi == lo)
+            guards = [sub(sub(phi, plo), C(1)), sub(sub(R.hi, R.lo), C(1)), sub(phi, R.lo), sub(R.lo, phi)]
+            d_here = sym.subst(R.delta, {'ri': R.lo})
+            d_prev = sym.subst(pdelta, {'ri': sub(R.lo, C(1))})
+            r = decide_equal(pdefs, sub(d_here, d_prev), C(R.Delta), guards, extra_atoms=())
+            inst = '%s continuity %s -> %s' % (fname, pn or 'top row', R.name)
+            if r[0] == 'equal':
+                ctx.held('R-MAP', inst, 'proved in %d regimes' % r[1])
+            elif r[0] == 'differ':
+                wv = r[1]
+                ctx.violation('R-MAP', R.file, fname, 'continuity %s -> %s' % (pn or 'top row', R.name),
+                              'the first row of region %s reads its predecessors assuming the layout shifts by %d per row, but relative to the last row of %s it '
+                              'shifts by %s (at %s): cells of the previous row are read one position off' % (R.name, R.Delta, pn or 'the top row', r[2], kern._fmtw(wv)),
+                              R.loop.line, facts={'witness': wv})
+            else:
+                ctx.undecided('R-MAP', inst, r[1])
+        prev.append((R.name, R.lo, R.hi, R.delta))
 
 
 # ------------------------------------------------------------------------------------------ pyx direct-matrix decision
@@ -836,30 +909,34 @@ def _progress(body):
 
 # ------------------------------------------------------------------------------------------ bounds of compact positions
 def rule_wps_bounds(ctx, m, tier='quick'):
-    """Per region: 0 <= position < width for every cell written (from the derived map and the band limits)."""
+    """Per region: every cell written in the column loop lies inside its row, 0 <= position < width."""
     pdefs, praw = parts_defs(m)
     for fname in WRITERS:
         info = analyse_writer(m, fname)
         for R in info['regions']:
-            lo_r, hi_r = expand_parts(R.lo, pdefs), expand_parts(R.hi, pdefs)
-            width = pdefs['width']
-            # positions written in the column loop: Q(j) = w0 + (j - c0) for j in [c0, hi_col): max position = w0 + hi_col - c0 - 1 < width
-            maxpos = sub(add(expand_parts(R.w0, pdefs), sub(expand_parts(R.hi_col, pdefs), expand_parts(R.c0, pdefs))), C(1))
-            for lab, sw in (('window>=1', {}), ('window off', {'W': C(0)})):
-                dom = [sub(V('L1'), C(1)), sub(V('L2'), C(1)), V('ri'), sub(sub(V('L1'), V('ri')), C(1))] + ([sub(V('W'), C(1))] if lab == 'window>=1' else [])
-                guard = sym.ite(('<=', sym.subst(lo_r, sw), V('ri')), sym.ite(('<', V('ri'), sym.subst(hi_r, sw)), C(1), C(0)), C(0))
-                over = sym.ite(('==', guard, C(1)), sym.ite(('<', sym.subst(maxpos, sw), sym.subst(width, sw)), C(0), C(1)), C(0))
-                r = sym.equivalent(over, C(0), dom, box=RBOX)
-                inst = '%s region %s last position < width [%s]' % (fname, R.name, lab)
-                if r[0] == 'equal':
-                    ctx.held('R-MAP', inst, r[1])
-                elif r[0] == 'differ':
-                    wv = r[1]
-                    ctx.violation('R-MAP', R.file, fname, 'region %s position bound' % R.name,
-                                  'in region %s the last cell of row ri is written at position %s of a row of width %s (at %s): outside the row'
-                                  % (R.name, sym.evaluate(sym.subst(maxpos, sw), wv), sym.evaluate(sym.subst(width, sw), wv), kern._fmtw(wv)), R.main.line, facts={'witness': wv})
-                else:
-                    ctx.undecided('R-MAP', inst, r[1])
+            guards = [sub(V('ri'), R.lo), sub(sub(R.hi, V('ri')), C(1)), sub(sub(V('L1'), V('ri')), C(1)), sub(sub(R.hi_col, R.c0), C(1))]
+            # positions written: Q(j) = w0 + (j - c0) for j in [c0, hi_col): the last one is w0 + hi_col - c0 - 1
+            maxpos = sub(add(R.w0, sub(R.hi_col, R.c0)), C(1))
+            over = tmax(C(0), add(sub(maxpos, V('P_width')), C(1)))       # > 0 iff the last position is >= width
+            r = decide_equal(pdefs, over, C(0), guards)
+            inst = '%s region %s last position < width' % (fname, R.name)
+            if r[0] == 'equal':
+                ctx.held('R-MAP', inst, 'proved in %d regimes' % r[1])
+            elif r[0] == 'differ':
+                wv = r[1]
+                ctx.violation('R-MAP', R.file, fname, 'region %s position bound' % R.name,
+                              'in region %s the last cell of row ri is written %s position(s) beyond the end of its row (at %s)' % (R.name, r[2], kern._fmtw(wv)),
+                              R.main.line, facts={'witness': wv})
+            else:
+                ctx.undecided('R-MAP', inst, r[1])
+            under = tmax(C(0), sub(C(0), R.w0))
+            r = decide_equal(pdefs, under, C(0), guards[:3])
+            if r[0] == 'equal':
+                ctx.held('R-MAP', '%s region %s first position >= 0' % (fname, R.name))
+            elif r[0] == 'differ':
+                ctx.violation('R-MAP', R.file, fname, 'region %s first position' % R.name, 'the first cell of a row is written at a negative position (at %s)' % kern._fmtw(r[1]), R.main.line)
+            else:
+                ctx.undecided('R-MAP', '%s region %s first position >= 0' % (fname, R.name), r[1])
         ctx.count('compact writers bounded', 1)
 
 
